@@ -25,15 +25,31 @@ pub enum BodyRx {
 
 /// Reach the body-receiving state through the real API with the given response head.
 pub fn reach_body_rx(use_call: bool, method: &str, head: &[u8]) -> Result<BodyRx, String> {
+    reach_body_rx_cut(use_call, method, head, None)
+}
+
+/// `cut`: the head first arrives only up to this offset and the caller looks at it (a caller
+/// that is handed a response proceeds with it - it cannot know better).
+pub fn reach_body_rx_cut(use_call: bool, method: &str, head: &[u8], cut: Option<usize>) -> Result<BodyRx, String> {
     let req = build_request(method, 11, "http://a.test/x", &[]);
     let mut buf = [0u8; 512];
     if use_call {
         let mut c = lib("Call::without_body", || Call::without_body(req)).map_err(|e| e.to_string())?;
         lib("Call<WithoutBody>::write", || c.write(&mut buf)).map_err(|e| e.to_string())?;
         let mut r = lib("Call::into_receive", || c.into_receive()).map_err(|e| e.to_string())?;
-        match lib("Call<RecvResponse>::try_response", || r.try_response(head)) {
-            Ok(Some((n, _))) if n == head.len() => {}
-            other => return Err(format!("head not accepted: {:?}", other.map(|o| o.map(|x| x.0)))),
+        let mut early = false;
+        if let Some(c) = cut {
+            match lib("Call<RecvResponse>::try_response", || r.try_response(&head[..c])) {
+                Ok(None) => {}
+                Ok(Some(_)) => early = true,
+                Err(e) => return Err(format!("prefix of the head refused: {e}")),
+            }
+        }
+        if !early {
+            match lib("Call<RecvResponse>::try_response", || r.try_response(head)) {
+                Ok(Some((n, _))) if n == head.len() => {}
+                other => return Err(format!("head not accepted: {:?}", other.map(|o| o.map(|x| x.0)))),
+            }
         }
         match lib("Call::into_body", || r.into_body()) {
             Ok(Some(b)) => Ok(BodyRx::Call(b)),
@@ -48,9 +64,19 @@ pub fn reach_body_rx(use_call: bool, method: &str, head: &[u8]) -> Result<BodyRx
             Ok(Some(SendRequestResult::RecvResponse(r))) => r,
             _ => return Err("no RecvResponse".into()),
         };
-        match lib("Flow<RecvResponse>::try_response", || r.try_response(head)) {
-            Ok((n, Some(_))) if n == head.len() => {}
-            other => return Err(format!("head not accepted: {:?}", other.map(|o| o.0))),
+        let mut early = false;
+        if let Some(c) = cut {
+            match lib("Flow<RecvResponse>::try_response", || r.try_response(&head[..c])) {
+                Ok((_, None)) => {}
+                Ok((_, Some(_))) => early = true,
+                Err(e) => return Err(format!("prefix of the head refused: {e}")),
+            }
+        }
+        if !early {
+            match lib("Flow<RecvResponse>::try_response", || r.try_response(head)) {
+                Ok((n, Some(_))) if n == head.len() => {}
+                other => return Err(format!("head not accepted: {:?}", other.map(|o| o.0))),
+            }
         }
         match lib("Flow<RecvResponse>::proceed", || r.proceed()) {
             Some(RecvResponseResult::RecvBody(b)) => Ok(BodyRx::Flow(b)),
@@ -150,7 +176,7 @@ pub fn c07_small_coding(mut k: u64, seed: u64) -> crate::gen::Coding {
         sizes.push(1 + (k % 3) as usize);
         k /= 3;
     }
-    crate::gen::encode_chunked(&crate::gen::CodingOpts { sizes, upper: false, leading_zeros: zeros as usize * 2, ext, trailers, payload_seed: seed })
+    crate::gen::encode_chunked(&crate::gen::CodingOpts { sizes, upper: false, leading_zeros: zeros as usize * 2, ext, trailers, payload_seed: seed, exact20: false })
 }
 
 pub fn c07(ctx: &mut Ctx) -> R {
@@ -194,14 +220,23 @@ pub fn c07_with(ctx: &mut Ctx, plan: C07Plan) -> R {
 
     let coding = match &plan.coding {
         Some(c) => c.clone(),
-        None => gen_coding(ctx),
+        None => {
+            if ctx.sub == 1 && ctx.chance(1, 12) {
+                ctx.count("f:peer_declares_chunk_of_4GiB_or_more");
+                crate::gen::gen_huge_chunk_prefix(ctx)
+            } else {
+                gen_coding(ctx)
+            }
+        }
     };
     let cl = coding.bytes.len();
     let tail = next_message(ctx);
     let mut stream = coding.bytes.clone();
     stream.extend_from_slice(&tail);
     let truncated = ctx.sub == 1 && !enumerated;
-    let total_visible = if truncated {
+    let total_visible = if coding.incomplete {
+        cl
+    } else if truncated {
         // the peer closes the connection mid-coding: input simply stops
         ctx.count("f:conn_close_mid_body");
         ctx.range(0, cl - 1)
@@ -288,10 +323,10 @@ pub fn c07_with(ctx: &mut Ctx, plan: C07Plan) -> R {
         *produced += p;
         ensure!(*produced == data_before[*consumed], "C07.payload_not_in_step", "after consuming {} coding bytes {} data bytes are due, {} were produced", *consumed, data_before[*consumed], *produced);
         let ended = rx.can_proceed();
-        if ended && *consumed != cl {
+        if ended && (*consumed != cl || coding.incomplete) {
             fail!("C07.ended_early", "", "body reported ended after {} of {} coding bytes", *consumed, cl);
         }
-        if !ended && *consumed == cl {
+        if !ended && *consumed == cl && !coding.incomplete {
             fail!("C07.not_ended", "", "final CRLF consumed ({} of {}) but the body is not reported ended", *consumed, cl);
         }
         if rx.on_boundary() {
@@ -374,6 +409,9 @@ pub fn c07_with(ctx: &mut Ctx, plan: C07Plan) -> R {
         if rx.can_proceed() {
             fail!("C07.ended_on_truncated", "", "a coding truncated at {} of {} bytes is reported ended", visible, cl);
         }
+        if coding.incomplete {
+            ensure!(produced == coding.payload.len(), "C07.no_bounded_progress", "only {} of the {} data bytes that arrived of a huge chunk were delivered", produced, coding.payload.len());
+        }
         ctx.count("p:truncated_never_ended");
     } else {
         if !ended_seen {
@@ -423,7 +461,7 @@ pub fn c08(ctx: &mut Ctx) -> R {
     let status = if method == "CONNECT" { *ctx.pick(&[404u16, 407, 500, 301, 302]) } else { *ctx.pick(&[200u16, 200, 201, 205, 301, 302, 307, 404, 500, 999]) };
     // legal fields with an empty value may precede the framing field
     let empty = *ctx.pick(&["", "", "X-Trace-Id:\r\n", "Server:   \r\n"]);
-    let loc = if (300..400).contains(&status) { "Location: /moved\r\n" } else { "" };
+    let loc = if (300..400).contains(&status) || (status == 201 && ctx.flip()) { "Location: /moved\r\n" } else { "" };
     let head = if close_delim {
         let st = if (300..400).contains(&status) { if method == "CONNECT" { 404 } else { 200 } } else { status };
         format!("HTTP/1.{} {} OK\r\nX-A: b\r\n\r\n", if http10 { 0 } else { 1 }, st)
@@ -433,7 +471,9 @@ pub fn c08(ctx: &mut Ctx) -> R {
     } else {
         format!("HTTP/1.1 {} OK\r\n{}{}Content-Length: {}{}\r\n\r\n", status, empty, loc, if ctx.chance(1, 8) { "0000000000000000000000" } else { "" }, n)
     };
-    let mut rx = match reach_body_rx(use_call, method, head.as_bytes()) {
+    // the head may arrive in two pieces (not inside a 3xx head: those cuts are owned by C05)
+    let cut = if !(300..400).contains(&status) && ctx.chance(1, 3) { Some(ctx.range(0, head.len() - 1)) } else { None };
+    let mut rx = match reach_body_rx_cut(use_call, method, head.as_bytes(), cut) {
         Ok(v) => v,
         Err(e) => fail!("FOREIGN", "", "cannot reach RecvBody: {}", e),
     };
